@@ -104,6 +104,10 @@ class FitYamlWriter(YamlWriterMixin, FitDReprBase):
                 _yaml_doc["parameter_formatters"] = _par_formatter_dict
 
         _cost_function_identifier = fit._cost_function.kafe2go_identifier
+        if fit._implicit_no_errors:
+            # the fit was created with 'chi2' and has no errors yet: it must switch to the covariance-based chi2
+            # when its first error is added, also after it has been reloaded
+            _cost_function_identifier = "chi2"
         if _cost_function_identifier is not None:
             _yaml_doc["cost_function"] = _cost_function_identifier
         else:
